@@ -2492,8 +2492,14 @@ class Network:
             network = Network([])
         if recycles: 
             recycle_networks = [Network(*i) for i in cyclic_paths_with_recycle]
-            for recycle_network in recycle_networks:
-                network.join_recycle_network(recycle_network)
+            while recycle_networks:
+                # Join loops that already share a unit with the network first; 
+                # a loop that hangs off another loop can only be joined after it.
+                for index, recycle_network in enumerate(recycle_networks):
+                    if not network.isdisjoint(recycle_network): break
+                else:
+                    index = 0
+                network.join_recycle_network(recycle_networks.pop(index))
         ends.update(network.streams)
         disjunction_streams = set([i.get_stream() for i in disjunctions])
         for feed in feeds:
